@@ -24,7 +24,7 @@ from cexpr import CT, OPS, lit, leaves, render
 
 STRIDE = 128
 FAMS = ["bin", "un", "cast", "cond", "init", "arg", "ret", "assign", "test", "opasg", "incdec", "d2l", "d2r",
-        "cc", "ccinit", "ccarg", "ccret", "ccassign", "ptr", "aopasg", "aincdec"]
+        "cc", "ccinit", "ccarg", "ccret", "ccassign", "ptr", "aopasg", "aincdec", "asgv", "wrap0"]
 
 
 PTROP = {"pdiff": "-", "plt": "<", "ple": "<=", "pgt": ">", "pge": ">=", "peq": "==", "pne": "!="}
@@ -51,10 +51,49 @@ def ptr_code(n, v):
     return "\n".join(g), "c%d();" % n
 
 
+TSIZE = {"bool": 1, "char": 1, "uchar": 1, "short": 2, "ushort": 2, "int": 4, "uint": 4, "long": 8, "ulong": 8, "enum": 4}
+TSIGNED = {"char", "short", "int", "long", "enum"}
+
+
+def asgv_code(n, v):
+    """family asgv: the value of `d = g` (d a local variable, a parameter or a global by case number) in a using context"""
+    ta, td, use = CT[v["ta"]], CT[v["td"]], v["op"]
+    kind = n % 3                                  # 0 local, 1 parameter, 2 global
+    g = ["static %s g%d = %s;" % (ta, n, lit(v["ta"], int(v["xv"])))]
+    if kind == 2:
+        g.append("static %s d%d;" % (td, n))
+    d = "d%d" % n if kind == 2 else "d"
+    decl = "%s d; " % td if kind == 0 else ""
+    params = "%s d" % td if kind == 1 else "void"
+    call = "c%d(0);" % n if kind == 1 else "c%d();" % n
+    asg = "(%s = g%d)" % (d, n)
+    if use == "winit":
+        body = "long w = %s; P(%d, w);" % (asg, n)
+    elif use == "cmp":
+        body = "P(%d, %s == %s);" % (n, asg, lit(v["td"], int(v["v"])))
+    elif use == "cond":
+        body = "int r; if (%s) r = 1; else r = 0; P(%d, r);" % (asg, n)
+    elif use == "index":
+        body = "P(%d, TAB[%s = g%d]);" % (n, d, n)
+    elif use == "arg":
+        g.append("static void a%d(long q) { P(%d, q); }" % (n, n))
+        body = "a%d(%s = g%d);" % (n, d, n)
+    elif use == "chain":
+        body = "%s c; P(%d, (c = %s = g%d));" % (CT[v["tc"]], n, d, n)
+    if use == "ret":
+        g.append("static long r%d(%s) { %sreturn %s = g%d; }" % (n, params, decl, d, n))
+        g.append("static void c%d(void) { P(%d, r%d(%s)); }" % (n, n, n, "0" if kind == 1 else ""))
+        return "\n".join(g), "c%d();" % n
+    g.append("static void c%d(%s) { %s%s O(%d, %s); }" % (n, params, decl, body, n, d))
+    return "\n".join(g), call
+
+
 def case_code(n, v):
     """-> (file-scope text, statement for main)"""
     if v["f"] == "ptr":
         return ptr_code(n, v)
+    if v["f"] == "asgv":
+        return asgv_code(n, v)
     fam, e = v["f"], v["e"]
     lv = leaves(e)
     mode = n % 3 if fam not in ("arg", "ret") else (n % 2) * 2      # 0 var, 1 param, 2 call
@@ -84,8 +123,11 @@ def case_code(n, v):
             g.append("static %s r%d(void) { return %s; }" % (td, n, ex))
             body = "P(%d, r%d());" % (n, n)
         elif fam == "assign":
-            g.append("static %s d%d;" % (td, n))
-            body = "P(%d, (d%d = %s)); O(%d, d%d);" % (n, n, ex, n, n)
+            if n % 2 == 0 or mode == 1:
+                g.append("static %s d%d;" % (td, n))
+                body = "P(%d, (d%d = %s)); O(%d, d%d);" % (n, n, ex, n, n)
+            else:                                            # a local variable as the assigned object
+                body = "%s d; P(%d, (d = %s)); O(%d, d);" % (td, n, ex, n)
         elif fam == "test":
             body = "int r; if (%s) r = 1; else r = 0; P(%d, r);" % (ex, n)
         else:
@@ -101,11 +143,19 @@ def mkprog(cases):
         tops.append(t)
         calls.append(c)
     ptr = any(v["f"] == "ptr" for _, v in cases)
-    return (cexpr.PRELUDE + (cexpr.PTR_PRELUDE if ptr else "") + "\n".join(tops) + "\nint main(void) {\n"
-            + (cexpr.PTR_INIT if ptr else "") + "\n".join(calls) + "\nreturn 0; }\n")
+    tab = any(v["f"] == "asgv" and v["op"] == "index" for _, v in cases)
+    return (cexpr.PRELUDE + (cexpr.PTR_PRELUDE if ptr else "") + ("static int TAB[300];\n" if tab else "") + "\n".join(tops)
+            + "\nint main(void) {\n" + (cexpr.PTR_INIT if ptr else "")
+            + ("for (int i = 0; i < 300; i++) TAB[i] = 3 * i + 1;\n" if tab else "") + "\n".join(calls) + "\nreturn 0; }\n")
 
 
 def expected(v):
+    if v["f"] == "asgv":
+        t = {"winit": "long", "ret": "long", "arg": "long", "chain": v["tc"]}.get(v["op"], "int")
+        exp = {"v": [v["u"], str(TSIZE[t]), "1" if t in TSIGNED else "0"]}
+        if v["op"] != "ret":
+            exp["o"] = [v["obj"]]
+        return exp
     exp = {"v": [v["u"], str(v["sz"]), "1" if v["sg"] else "0"]}
     if v["f"] in ("assign", "opasg", "incdec", "aopasg", "aincdec"):
         exp["o"] = [v["obj"]]
@@ -115,6 +165,11 @@ def expected(v):
 def classify(v, exp, got):
     """root-cause class of a disagreement"""
     fam = v["f"]
+    if fam == "asgv":
+        sh = "%s:%s<-%s%s" % (v["op"], v["td"], v["ta"], "" if v["tc"] == "-" else ":outer-" + v["tc"])
+        if isinstance(got, tuple):
+            return "asgv:%s:crash-or-rejected" % sh
+        return "asgv:%s:%s" % (sh, "value" if got.get("v") != exp["v"] else "object")
     if fam == "ptr":
         sh = "%s:elem%d:%s" % (v["op"], v["es"], v["it"])
         if isinstance(got, tuple):
@@ -142,7 +197,7 @@ def judge(ctx, tree, vecs, tag):
     bad = []
     for n, v in items:
         exp, got = expected(v), res.get(n)
-        ctx.note_case(cexpr.describe(v) if v["f"] == "ptr" else "%s|%s|%s|%s" % (v["f"], v["op"], v["d"], cexpr.const_text(v["e"])),
+        ctx.note_case(cexpr.describe(v) if v["f"] in ("ptr", "asgv") else "%s|%s|%s|%s" % (v["f"], v["op"], v["d"], cexpr.const_text(v["e"])),
                       nontrivial=v["f"] != "test")
         if isinstance(got, tuple) or any(got.get(k) != exp[k] for k in exp):
             bad.append((n, v, exp, got))
